@@ -733,3 +733,91 @@ def iteration_of(node: ast.AST, var: str) -> Optional[ast.AST]:
         if isinstance(a, (ast.For, ast.AsyncFor)) and var in target_names(a.target):
             return a.iter
     return None
+
+
+# ------------------------------------------------------------------ data-driven code: unroll loops over literals
+def _literal_items(fn: ast.AST, it: ast.AST) -> Optional[List[List[ast.AST]]]:
+    """Elements of a loop iterable that is a literal (or a name bound once to one): a list of per-iteration value
+    tuples ([k, v] for dict .items(), [e] or the components of a tuple element otherwise)."""
+    def lit(e):
+        if isinstance(e, ast.Name):
+            d = _single_defs(fn).get(e.id)
+            return d if isinstance(d, (ast.Dict, ast.Tuple, ast.List)) else None
+        return e if isinstance(e, (ast.Dict, ast.Tuple, ast.List)) else None
+
+    if isinstance(it, ast.Call) and isinstance(it.func, ast.Attribute) and it.func.attr == "items" and not it.args:
+        d = lit(it.func.value)
+        if isinstance(d, ast.Dict) and all(k is not None for k in d.keys):
+            return [[k, v] for k, v in zip(d.keys, d.values)]
+        return None
+    d = lit(it)
+    if isinstance(d, (ast.Tuple, ast.List)):
+        return [[e] for e in d.elts]
+    if isinstance(d, ast.Dict) and all(k is not None for k in d.keys):
+        return [[k] for k in d.keys]
+    return None
+
+
+def unroll_literal_loops(fn: ast.AST) -> ast.AST:
+    """A copy of the function in which every top-level `for` over a literal container is replaced by its unrolled
+    iterations (loop variables substituted), `if c: ...; break` bodies becoming an if/elif chain, and
+    setattr(obj, "name", v) written as obj.name = v.  Loops that cannot be unrolled faithfully are left alone."""
+    from .inline import clone, _Subst
+    from .program import set_parents
+
+    new = clone(fn)
+    set_parents(new)
+
+    def subst(stmts, mapping):
+        return [_Subst(mapping).visit(clone(s)) for s in stmts]
+
+    def bind(target, vals):
+        if isinstance(target, ast.Name) and len(vals) == 1:
+            return {target.id: vals[0]}
+        if isinstance(target, (ast.Tuple, ast.List)):
+            comps = vals if len(vals) == len(target.elts) else (list(vals[0].elts) if len(vals) == 1 and isinstance(vals[0], (ast.Tuple, ast.List)) and len(vals[0].elts) == len(target.elts) else None)
+            if comps is not None and all(isinstance(t, ast.Name) for t in target.elts):
+                return {t.id: v for t, v in zip(target.elts, comps)}
+        return None
+
+    def unroll_block(block):
+        out = []
+        for st in block:
+            for fld in ("body", "orelse", "finalbody"):
+                if hasattr(st, fld) and isinstance(getattr(st, fld), list) and not isinstance(st, (ast.For, ast.While, ast.FunctionDef, ast.ClassDef)):
+                    setattr(st, fld, unroll_block(getattr(st, fld)))
+            if isinstance(st, ast.For) and not st.orelse:
+                items = _literal_items(new, st.iter)
+                maps = [bind(st.target, v) for v in items] if items is not None else None
+                if maps and all(m is not None for m in maps):
+                    jumps = [n for s_ in st.body for n in ast.walk(s_) if isinstance(n, (ast.Break, ast.Continue))]
+                    if not jumps:
+                        for m in maps:
+                            out.extend(unroll_block(subst(st.body, m)))
+                        continue
+                    single = st.body[0] if len(st.body) == 1 and isinstance(st.body[0], ast.If) and not st.body[0].orelse else None
+                    if single is not None and single.body and isinstance(single.body[-1], ast.Break) and len(jumps) == 1:
+                        chain = None
+                        for m in reversed(maps):
+                            test = _Subst(m).visit(clone(single.test))
+                            body = unroll_block(subst(single.body[:-1], m)) or [ast.Pass()]
+                            chain = ast.If(test=test, body=body, orelse=[chain] if chain is not None else [])
+                            ast.copy_location(chain, single)
+                        out.append(chain)
+                        continue
+            out.append(st)
+        return out
+
+    new.body = unroll_block(new.body)
+
+    class SetAttr(ast.NodeTransformer):
+        def visit_Expr(self, node):
+            c = node.value
+            if isinstance(c, ast.Call) and norm(c.func) == "setattr" and len(c.args) == 3 and isinstance(c.args[1], ast.Constant) and isinstance(c.args[1].value, str):
+                return ast.copy_location(ast.Assign(targets=[ast.Attribute(value=c.args[0], attr=c.args[1].value, ctx=ast.Store())], value=c.args[2]), node)
+            return node
+
+    new = SetAttr().visit(new)
+    ast.fix_missing_locations(new)
+    set_parents(new)
+    return new
